@@ -1,4 +1,5 @@
 import DK.Driver.Leaf
+import DK.Driver.Tree
 /-! Line driver: one JSON operation per input line, one JSON answer per output line. -/
 namespace DK.Driver
 open Lean
@@ -9,7 +10,9 @@ def handle (line : String) : String :=
   | .ok j =>
     match (do
       let op ← (← fld j "op").getStr?
-      if op.startsWith "leaf." then leafOp op j
+      if op = "leaf.cons" then leafConsOp j
+      else if op.startsWith "leaf." then leafOp op j
+      else if op.startsWith "tree." then treeOp op j
       else if op.startsWith "fn." then fnOp op j
       else if op = "kern" then kernOp j
       else throw s!"unknown op {op}" : Except String Json) with
